@@ -142,28 +142,30 @@ NAMES = ['a', 'A', 'ab', 'b.o', '*', '?a', '[ab]', 'a b', 'c', 'x\ny', 'a+b', 'c
 SETS = [[0, 1, 2], [3, 4, 5], [6, 7, 8], [0, 9, 4], [0, 1, 2, 3, 4, 5, 6, 7, 8, 9], [7, 10, 11]]
 # placement of entry j: (trash dir, original dir)
 PLACES = [('/v/.Trash-1000', '/v/d'), ('/v/.Trash/1000', '/v/e'), ('/h/.local/share/Trash', '/h/w'), ('/v/.Trash-1000', '/v/e'),
-          ('/w/.Trash-1000', '/w/d')]  # (/w: a second volume that shares its device string with /v)
+          ('/w/.Trash-1000', '/w/d'),  # (/w: a second volume that shares its device string with /v)
+          ('/u/relocated', '/u/d')]    # (/u/.Trash-1000 is a symbolic link to /u/relocated: trash-put trashes through it)
+NPL = len(PLACES)
 
 
 def _case(pat, eset, shift, dupe):
     with rt.untraced():
         rt.begin((PATTERNS[pat], SETS[eset], shift, dupe))
-        nodes = [W.d('/h'), W.d('/v/.Trash', 0o1777), W.f('/v/keep', 'KEEP', 0o644, 800)] + K.sentinels('/v/out')
+        nodes = [W.d('/h'), W.d('/v/.Trash', 0o1777), W.f('/v/keep', 'KEEP', 0o644, 800), W.d('/u/relocated', 0o700), W.l('/u/.Trash-1000', 'relocated', 810)] + K.sentinels('/v/out')
         entries = []
         for j, ni in enumerate(SETS[eset]):
-            td, od = PLACES[(j + shift) % 5]
+            td, od = PLACES[(j + shift) % NPL]
             loc = od + '/' + NAMES[ni]
             pv = loc if td.startswith('/h') else loc[len('/v/'):]  # (/v/ and /w/ have the same length)
             # (a '+' is written literally, as other implementations do: it stands for itself, not for a space)
             nodes += K.trashed(td, 'e%d' % j, pv if '+' in pv else K.quote(pv), '2020-01-01T00:00:00', K.KINDS[(j + shift) % 6], 2000 + 20 * j)
             entries.append((td, 'e%d' % j, loc))
             if dupe and j == 0:
-                td2, od2 = PLACES[(j + shift + 1) % 5]
+                td2, od2 = PLACES[(j + shift + 1) % NPL]
                 loc2 = od2 + '/' + NAMES[ni]
                 pv2 = loc2 if td2.startswith('/h') else loc2[len('/v/'):]
                 nodes += K.trashed(td2, 'dup', K.quote(pv2), '2020-01-02T00:00:00', 'file', 2500)
                 entries.append((td2, 'dup', loc2))
-        world = W.W(mounts=K.MOUNTS + ['/w'], cwd='/v', nodes=nodes)
+        world = W.W(mounts=K.MOUNTS + ['/w', '/u'], cwd='/v', nodes=nodes)
         p = PATTERNS[pat]
         steps = [{'snap': '/'}, C('rm', [p], scen.env(), cwd='/v'), {'snap': '/'}]
         m, res = scen.run_model(world, steps)
@@ -249,10 +251,10 @@ def w_fault(op: int, kind: int, nth: int, where: int) -> str:
 def w_main(pat: int, eset: int, shift: int, dupe: bool) -> str:
     """
     pre: PARTITION is None or eset == PARTITION
-    pre: 0 <= pat < 31 and 0 <= eset < 6 and 0 <= shift < 5
+    pre: 0 <= pat < 31 and 0 <= eset < 6 and 0 <= shift < 6
     post: _ == ''
     """
-    return _case(rt.sel(pat, 31), rt.sel(eset, 6), rt.sel(shift, 5), rt.selb(dupe))
+    return _case(rt.sel(pat, 31), rt.sel(eset, 6), rt.sel(shift, 6), rt.selb(dupe))
 
 
 def obligations(tier):
@@ -262,7 +264,7 @@ def obligations(tier):
            bounds='pattern: any str 1<=len<=3; location: any absolute str len<=5'),
         CH('W_pattern_x_names', MOD, 'w_main', timeout=900, partitions=list(range(6)), engine='W', regime='selector',
            encodes=K.RM_FUNCS, stubs=K.STUBS,
-           bounds='31 patterns x 6 name sets (12 names, incl. a+b, c++) x 5 placements over 4 trash dirs on 3 volumes (two of them with the same device string) x duplicate base name'),
+           bounds='31 patterns x 6 name sets (12 names, incl. a+b, c++) x 6 placements over 5 trash dirs on 4 volumes (two of them with the same device string, one whose .Trash-uid is a symbolic link to a directory) x duplicate base name'),
         CH('W_one_failing_removal', MOD, 'w_fault', timeout=600, engine='W', regime='selector', encodes=K.RM_FUNCS + ['CleanableTrashcan.delete_trash_info_and_backup_copy'],
            stubs=K.STUBS + ['one system call of the removal fails once'],
            bounds='trash-rm of a pattern matching 2 of 3 entries; the n-th (0..2) unlink / rmdir under files/ or info/ fails (EACCES, EROFS, ENOTEMPTY, EBUSY) x entry a file / a tree / a link to a directory'),
